@@ -1,5 +1,7 @@
 package tengo
 
+import "math"
+
 var builtinFuncs = []*BuiltinFunction{
 	{
 		Name:  "len",
@@ -385,12 +387,20 @@ func buildRange(start, stop, step int64) *Array {
 			array.Value = append(array.Value, &Int{
 				Value: i,
 			})
+			if i > math.MaxInt64-step {
+				// i += step would wrap around and the loop would never end
+				break
+			}
 		}
 	} else {
 		for i := start; i > stop; i -= step {
 			array.Value = append(array.Value, &Int{
 				Value: i,
 			})
+			if i < math.MinInt64+step {
+				// i -= step would wrap around and the loop would never end
+				break
+			}
 		}
 	}
 	return array
